@@ -58,6 +58,13 @@ async def server_call(env, fx, sid, kind, payload, ip, crash_at=None):
         return out
     await asyncio.sleep(0)
     out["init"] = _content(ws.sent[0]).get("state") if ws.sent else None
+    if kind == "status":
+        # a connection that only looks at the state and goes away: what the manager does when it is cleaned up
+        try:
+            svc.close_service()
+        except Exception as e:
+            out["raised"] = type(e).__name__
+        return out
     if kind is None:
         return out
     ws.sent.clear()
@@ -131,6 +138,14 @@ async def server_recover(env, fx, sid, ip):
     if not isinstance(r["init"], int):
         return "init-fails", str(r["init"])
     state = r["init"]
+    # before the retry, a connection that only checks the state and closes (its clean-up stores the connection's view of the
+    # state, as every connection's does): it must not change what the next connection is told
+    rs0 = await server_call(env, fx, sid, "status", None, ip)
+    if rs0.get("raised"):
+        return "status-connection-fails", str(rs0.get("raised"))
+    r1 = await server_call(env, fx, sid, None, None, ip)
+    if r1["init"] != state:
+        return "state-changed-by-a-status-connection", f"{state} -> {r1['init']}"
     steps = 0
     while state != 2 and steps < 3:
         steps += 1
